@@ -143,7 +143,7 @@ func parseQ(s string) (v *big.Rat, fracDigits int, ok bool) {
 	return v.Add(v, new(big.Rat).SetFrac(n, d)), len(frac), true
 }
 
-var nearTie = big.NewRat(1, 1_000_000_000)
+var nearTie = big.NewRat(1, 1_000_000_000_000) // 1e-12: an implementation may keep 12 exact decimal digits of q and no more
 var one = big.NewRat(1, 1)
 
 func paramFeatures(p string) uint {
@@ -194,8 +194,8 @@ func prepare(c *Case) *prepared {
 			}
 			for _, pp := range e.Pre {
 				p.feat |= paramFeatures(pp)
-				if n, _, _ := strings.Cut(pp, "="); n == "q" {
-					p.may = "second q parameter"
+				if n, _, _ := strings.Cut(pp, "="); strings.EqualFold(n, "q") {
+					p.may = "a parameter named q or Q before q: the text does not say whether Q is the quality"
 				}
 			}
 			r := rng{pre: strings.Join(e.Pre, ";")}
@@ -222,6 +222,9 @@ func prepare(c *Case) *prepared {
 					r.spec = 2
 				}
 			}
+			if strings.ToLower(e.Range) != e.Range {
+				p.may = "upper case in a range: the text does not say whether types compare case-insensitively"
+			}
 			p.ranges = append(p.ranges, r)
 			qs = append(qs, q)
 		}
@@ -243,11 +246,11 @@ func prepare(c *Case) *prepared {
 	zero := new(big.Rat)
 	for i := 1; i < len(uniq); i++ {
 		if new(big.Rat).Sub(uniq[i], uniq[i-1]).Cmp(nearTie) < 0 {
-			p.may = "two distinct q values closer than 1e-9"
+			p.may = "two distinct q values closer than 1e-12"
 		}
 	}
 	if len(uniq) > 0 && uniq[0].Sign() > 0 && uniq[0].Cmp(nearTie) < 0 {
-		p.may = "positive q below 1e-9"
+		p.may = "positive q below 1e-12"
 	}
 	for i, q := range qs {
 		if q.Cmp(zero) == 0 {
@@ -267,6 +270,7 @@ func prepare(c *Case) *prepared {
 
 type offer struct {
 	raw, typ, sub, params string
+	upper                 bool // upper case in the media type: matching is not fixed by the text
 }
 
 func parseOffer(raw string) offer {
@@ -277,6 +281,7 @@ func parseOffer(raw string) offer {
 		o.params = strings.TrimSpace(raw[i+1:])
 	}
 	o.typ, o.sub, _ = strings.Cut(strings.TrimSpace(mt), "/")
+	o.upper = strings.ToLower(mt) != mt
 	return o
 }
 
@@ -386,6 +391,13 @@ func expectType(p *prepared, offers []offer, def string) expect {
 		e.anyMember = true
 		e.why = p.may
 		return e
+	}
+	for i := range offers {
+		if offers[i].upper && !p.absent {
+			e.anyMember = true
+			e.why = "upper case in an offer"
+			return e
+		}
 	}
 	if p.absent {
 		e.why = "no header: first offer"
